@@ -3,5 +3,5 @@
 set -e
 cd "$(dirname "$0")"
 timeout 600 coqc -Q ../coq/theories BMC Extract.v > extract.log 2>&1 || { cat extract.log; exit 1; }
-ocamlfind ocamlopt -O3 -w -a -package str -linkpkg model.mli model.ml conv.ml oracle.ml -o oracle 2>build.log || \
-ocamlfind ocamlopt -w -a -package str -linkpkg model.mli model.ml conv.ml oracle.ml -o oracle 2>build.log || { cat build.log; exit 1; }
+ocamlfind ocamlopt -O3 -w -a -package str -linkpkg model.mli model.ml conv.ml conn_glue.ml oracle.ml -o oracle 2>build.log || \
+ocamlfind ocamlopt -w -a -package str -linkpkg model.mli model.ml conv.ml conn_glue.ml oracle.ml -o oracle 2>build.log || { cat build.log; exit 1; }
